@@ -1256,7 +1256,7 @@ fn cls(x: &mut Exec) -> Res {
     }
     x.desc = format!("cls predecessors kinds={:?} (0 return,1 panic,2 cancel in park,3 cancel in sleep,4 timed-out Blocker,5 select,6 park_timeout) successors={} pool=2", kinds, nsucc);
     x.wait_all()?;
-    x.finish();
+    x.finish()?;
     if let Some(e) = errs.lock().unwrap().first() {
         return viol(format!("coroutine-local / fresh start: {}", e));
     }
